@@ -96,7 +96,7 @@ struct Harness
     {
         std::string k;
         k += (char)L.s->mem_;
-        k += (char)(is_term(L.s) ? 1 : 0);
+        k += (char)0; // whether a NUL happens to follow the content is NOT state: it depends on bytes in spare capacity left by earlier history
         if (L.s->ptr_) { k.append(L.s->ptr_, L.s->num_ <= L.s->mem_ ? L.s->num_ : L.s->mem_); }
         return k;
     }
@@ -121,7 +121,7 @@ struct Harness
     {
         std::string body = k.substr(2);
         if (length_mode) { body = "x*" + std::to_string(body.size()); }
-        return "str{mem=" + std::to_string((unsigned char)k[0]) + (k[1] ? " terminated \"" : " \"") + (length_mode ? body : show(body)) + "\"}";
+        return "str{mem=" + std::to_string((unsigned char)k[0]) + " \"" + (length_mode ? body : show(body)) + "\"}";
     }
     // blocks: index -> byte string.  rich mode: all strings of length 0..2 over the letters; length mode: 'x' * idx
     std::string block(long idx) const
@@ -165,9 +165,7 @@ struct Harness
             L.s->mem_ = mem;
             memcpy(L.s->ptr_, L.m.data(), L.m.size());
             L.s->num_ = L.m.size();
-            if (key[1]) { L.s->ptr_[L.s->num_] = 0; }
         }
-        L.term = key[1] != 0;
     }
     void make(Live &L, const std::string &key)
     {
@@ -226,7 +224,6 @@ struct Harness
         a_str *s = L.s;
         std::string &m = L.m;
         std::string before = m;
-        bool term_before = is_term(s);
         probe = false;
         outcome = "ok";
         unsigned char buf[512];
@@ -415,7 +412,7 @@ struct Harness
         if (ck.ok() && terminating(o.code) && s->ptr_)
         {
             bool changed = m != before;
-            if ((term_before || changed || always_terminates(o.code)) && !is_term(s))
+            if ((changed || always_terminates(o.code)) && !is_term(s))
             {
                 ck.fail("not-terminated", s->num_ >= s->mem_ ? "no room for a NUL after the content inside the capacity (length " + std::to_string(s->num_) + ", capacity " + std::to_string(s->mem_) + ")" : "the byte after the content is not NUL");
             }
